@@ -523,13 +523,17 @@ var c19BadDocs = []struct {
 	{"two-documents", []byte(`{"n":1} {"n":2}`)},
 	{"bare-word", []byte(`nul`)},
 	{"wrong-type-for-target", []byte(`{"n":"a string"}`)}, // valid JSON, but not for struct{N int}
+	// documents whose decoding error text is long (the text must not leak into a Close reason over 123 bytes)
+	{"wrong-type-long-literal", []byte(`{"n":` + strings.Repeat("9", 140) + `}`)},
+	{"wrong-type-long-string", []byte(`{"n":"` + strings.Repeat("long string value ", 12) + `"}`)},
+	{"truncated-long", []byte(`{"` + strings.Repeat("k", 200) + `":[1,2,`)},
 }
 
 func c19BadCases() []c19BadCase {
 	var out []c19BadCase
 	for _, d := range c19BadDocs {
 		targets := []string{"interface", "raw", "struct", "typed"}
-		if d.Kind == "wrong-type-for-target" {
+		if strings.HasPrefix(d.Kind, "wrong-type") {
 			targets = []string{"typed"}
 		}
 		for _, tg := range targets {
